@@ -66,10 +66,20 @@ struct Harness {
 	template <typename FI> static typename std::enable_if<!std::is_const<typename std::remove_reference<FI>::type>::value, bool>::type runFilter(int kind, FI v) { return applyFilter(kind, v); }
 	template <typename FI> static typename std::enable_if<std::is_const<typename std::remove_reference<FI>::type>::value, bool>::type runFilter(int kind, FI v) { int c = v; return applyFilter(kind, c); }
 
+	static std::vector<int> & filterCalls() { static std::vector<int> v; return v; }
 	void appendFilter(int kind) {
 		int id = (int)filters.size(); filters.push_back(MF{id, kind, true}); fh.push_back(FilterHandle());
 		ctx.log(fmt("appendFilter(%s) -> F%d", fkName(kind), id));
-		fh[id] = d->appendFilter([id, kind](typename PR::FI v, typename PR::FT t) -> bool { rec(0, id, v, t.id); return runFilter<typename PR::FI>(kind, v); });
+		// every filter carries its own invocation counter (a stateful filter: quota, dedup, rate limit): the mixin has to keep
+		// running the object it stored, not copies of it
+		filterCalls().resize(filters.size(), 0); filterCalls()[id] = 0;
+		Ctx * cx = &ctx;
+		int own = 0;
+		fh[id] = d->appendFilter([id, kind, own, cx](typename PR::FI v, typename PR::FT t) mutable -> bool {
+			++own; int seenByHarness = ++filterCalls()[id];
+			if(own != seenByHarness) cx->fail("filter-state-lost", fmt("filter F%d is at its invocation number %d, the dispatcher has run it %d times: it is not the stored filter object that runs", id, own, seenByHarness));
+			rec(0, id, v, t.id); return runFilter<typename PR::FI>(kind, v);
+		});
 		forder.push_back(id); fslot[fadds % 2] = id; ++fadds;
 	}
 	void removeFilter(int id) {
